@@ -2438,6 +2438,63 @@ theorem C01_complex_instance_plain_write_read_partial {F} (ops : FloatOps F) (le
   · exact ⟨hkw, ed, hent, Or.inl hemp⟩
   · exact storablePart_of_plain _ cfg p hkw ed hent hrec hpl
 
+/-! #### read ∘ write for managers that mix all three kinds of instances -/
+
+open Classical in
+/-- the record `writeInst` emits for an instance, by the kind of the instance -/
+noncomputable def itOf {F} (ops : FloatOps F) (lex : LexCfg) (cfg : RWCfg) (d : Dict) (lk : Lookup) (i : MInst F) : Item F :=
+  if StorableInst { ops := ops, lex := lex, cfg := cfg, dict := d, lookup := lk } i then (AnyRec.simple (recOf ops cfg d i)).item d
+  else if EmptyInst d i then (AnyRecE.empty (F := F) (brecOf i) [10]).item d
+  else cxItemS d (crecOf ops cfg d i) [10] [10]
+
+/-- **read ∘ write and write ∘ read ∘ write at file level, all three kinds of instances** (`_partial`): for every manager
+    whose instances - pairwise different ids, references only to instances it holds - are each an internally mapped instance
+    of the fragment of `C01_file_write_read_partial` (`StorableInst`), an instance of an entity without attributes
+    (`EmptyInst`) or an externally mapped instance with storable parts (`StorableCInst`; the `Bal` side condition is
+    discharged by `storablePart_of_plain` for all value kinds but selects and aggregates): the data section
+    `STEPfile::WriteData` emits is read back by the two passes with severity NULL to exactly the instances that were written
+    - every value identical, every part of every externally mapped instance, every instance complete - and writing what
+    was read gives the same bytes again. -/
+theorem C01_file_write_read_all_partial {F} (ops : FloatOps F) (lex : LexCfg) (cfg : RWCfg) (d : Dict) (strict : Bool)
+    (hskip : cfg.skipInstanceSkipsComments = true) (hcri : lex.criSkipsComments = true) (hagg : cfg.aggrSkipsComments = true)
+    (hmc : cfg.missingCheckEverySecond = false) (hrep : cfg.complexReportsError = true)
+    (hsa : cfg.stringNodeAppends = false) (m : Mgr F) (hnd : (m.insts.map (·.id)).Nodup)
+    (hst : ∀ i ∈ m.insts,
+      StorableInst { ops := ops, lex := lex, cfg := cfg, dict := d, lookup := Mgr.lookup d m } i ∨ EmptyInst d i ∨
+      StorableCInst { ops := ops, lex := lex, cfg := cfg, dict := d, lookup := Mgr.lookup d m } cfg i) :
+    ∃ res, readDataSection ops lex cfg d strict false
+        (10 :: (m.insts.flatMap (writeInst ops cfg d) ++ (stringToBytes "ENDSEC;\n" ++ (endIso ++ [59, 10])))) = .ok res ∧
+      res.sev = .null ∧ exitStatus res.sev = 0 ∧
+      res.mgr.insts = m.insts.map (fun i => { i with state := .complete }) ∧
+      res.mgr.insts.flatMap (writeInst ops cfg d) = m.insts.flatMap (writeInst ops cfg d) := by
+  have key : ∀ i ∈ m.insts,
+      (itOf ops lex cfg d (Mgr.lookup d m) i).id = i.id ∧ keyOf (itOf ops lex cfg d (Mgr.lookup d m) i).mkI = keyOf i ∧
+      (itOf ops lex cfg d (Mgr.lookup d m) i).sev = .null ∧
+      (itOf ops lex cfg d (Mgr.lookup d m) i).out = { i with state := .complete } ∧
+      (∀ K, 35 :: ((itOf ops lex cfg d (Mgr.lookup d m) i).body ++ ((itOf ops lex cfg d (Mgr.lookup d m) i).g ++ K)) =
+        writeInst ops cfg d i ++ K) ∧
+      Item1OK cfg d (itOf ops lex cfg d (Mgr.lookup d m) i) ∧
+      Item2OK ops lex cfg d strict (Mgr.lookup d m) (itOf ops lex cfg d (Mgr.lookup d m) i) := by
+    intro i hi
+    unfold itOf
+    by_cases hS : StorableInst { ops := ops, lex := lex, cfg := cfg, dict := d, lookup := Mgr.lookup d m } i
+    · rw [if_pos hS]
+      exact storableInst_item ops lex cfg d strict hskip hcri hagg hmc hrep hsa _ i hS
+    · rw [if_neg hS]
+      by_cases hE : EmptyInst d i
+      · rw [if_pos hE]
+        exact emptyInst_item ops lex cfg d strict hskip _ i hE
+      · rw [if_neg hE]
+        have hC : StorableCInst { ops := ops, lex := lex, cfg := cfg, dict := d, lookup := Mgr.lookup d m } cfg i := by
+          rcases hst i hi with h | h | h
+          · exact absurd h hS
+          · exact absurd h hE
+          · exact h
+        exact complexInst_item ops lex cfg d strict hskip hcri hagg hmc hrep hsa _ i hC
+  exact C01_file_write_read_items_partial ops lex cfg d strict hskip m hnd (itOf ops lex cfg d (Mgr.lookup d m))
+    (fun i hi => (key i hi).1) (fun i hi => (key i hi).2.1) (fun i hi => (key i hi).2.2.1) (fun i hi => (key i hi).2.2.2.1)
+    (fun i hi => (key i hi).2.2.2.2.1) (fun i hi => (key i hi).2.2.2.2.2.1) (fun i hi => (key i hi).2.2.2.2.2.2)
+
 /-! ### the two halves composed, and their hypotheses on a concrete file -/
 
 /-- **the token the writer emits for a stored value denotes that value** (`storable_covered`, exported): for every stored
